@@ -61,8 +61,15 @@ def gen(binp, seed, n):
     for w, r in zip(wls, res):
         for k in range(1, r["invocations"] + 1):
             follow = rng.sample(P.FOLLOW_UPS, 3)
+            if rng.random() < 0.5:
+                follow = follow + follow      # the same follow-ups twice: the second round borrows what the first gave back
             kind = rng.choice(["oneshot", "validator"])
             cases.append({"calls": [{"kind": kind, "schema": w}] + follow, "panic_at": k})
+            if '"default"' in json.dumps(w["schema"]):
+                # what an object validator notes about members filled from defaults is looked for right after the abort (member
+                # order is Go's map order: several runs)
+                for _ in range(6):
+                    cases.append({"calls": [{"kind": kind, "schema": w}, P.FOLLOW_UPS[0]] + follow[:1], "panic_at": k})
     return cases
 
 
